@@ -202,3 +202,32 @@ def rand_gint_matrix(rng, dim, lo=-2, hi=2, herm=False):
     if herm:
         a = a + a.conj().T
     return a
+
+
+@contextlib.contextmanager
+def recording_su(cls, log):
+    """Log every gate a simple-update / TEBDGen style object applies (`gate(G, where)`) and every layer
+    boundary (`postlayer()`).  log: list of ("gate", where, G) / ("postlayer",) entries."""
+    orig_gate, orig_post = cls.gate, cls.postlayer
+    own_gate, own_post = "gate" in cls.__dict__, "postlayer" in cls.__dict__
+
+    def gate(self, G, where):
+        log.append(("gate", tuple(where), np.array(G, copy=True)))
+        return orig_gate(self, G, where)
+
+    def postlayer(self):
+        log.append(("postlayer",))
+        return orig_post(self)
+
+    cls.gate, cls.postlayer = gate, postlayer
+    try:
+        yield log
+    finally:
+        if own_gate:
+            cls.gate = orig_gate
+        else:
+            del cls.gate
+        if own_post:
+            cls.postlayer = orig_post
+        else:
+            del cls.postlayer
